@@ -6,6 +6,7 @@ package main
 //    or: "assign ; p low high err ; ..."
 
 import (
+	"bytes"
 	"encoding/hex"
 	"encoding/json"
 	"errors"
@@ -41,15 +42,31 @@ func (p *scriptedProducer) Events() chan kafka.Event            { return p.event
 func (p *scriptedProducer) Flush(int) int                       { return 0 }
 func (p *scriptedProducer) Close()                              {}
 
+// patBytes is the payload the token "%<n>" stands for: n bytes of a fixed non-periodic-looking pattern
+func patBytes(n int) []byte {
+	b := make([]byte, n)
+	for i := range b {
+		b[i] = byte(i*7 + i/251 + 3)
+	}
+	return b
+}
+
 func hx(b []byte) string {
 	if len(b) == 0 {
 		return "-"
+	}
+	if len(b) > 64 && bytes.Equal(b, patBytes(len(b))) {
+		return "%" + strconv.Itoa(len(b))
 	}
 	return hex.EncodeToString(b)
 }
 func unhx(s string) []byte {
 	if s == "-" {
 		return nil
+	}
+	if strings.HasPrefix(s, "%") {
+		n, _ := strconv.Atoi(s[1:])
+		return patBytes(n)
 	}
 	b, _ := hex.DecodeString(s)
 	return b
@@ -70,6 +87,7 @@ func genReceiver(r *rng, n int, tier string, emit func(string)) {
 		"hist 1 ; rsend " + h("t") + " " + h("k") + " 01 100 ; rack " + h("t") + " " + h("k") + " - -50 ; rsend " + h("t") + " " + h("j") + " 02 0 ; rsend " + h("t") + " " + h("j") + " 03 -9 ; eof 0 ; rsend " + h("t") + " " + h("k") + " 04 -100000",
 		"hist 2 ; wm 0:0:5:1 1:0:0:0 ; send " + h("t") + " " + h("k") + " " + h("p") + " ; eof 1 ; ack " + h("t") + " " + h("k") + " - ; eof 0",
 		"hist 1 ; ack " + h("t") + " " + h("k") + " - ; rnoack " + h("t") + " " + h("k") + " 0a0b ; send " + h("t") + " " + h("j") + " 01 ; rnopl " + h("t") + " " + h("j") + " 0 ; bad 0 ; eof 0 ; rack " + h("t") + " " + h("k") + " - 0 ; rnoack " + h("t") + " " + h("k") + " 0c ; rnopl " + h("t") + " " + h("k") + " 0",
+		"assign ; 0 0 10 0 1 ; 1 5 9 0 0 ; 2 0 3 0 1",
 		"assign ; 0 0 10 0 ; 1 0 50000 0 ; 2 0 50001 0 ; 3 100 60000 0 ; 4 100 50100 0 ; 5 100 50101 0 ; 6 7 9 1",
 	} {
 		emit(c)
@@ -84,7 +102,7 @@ func genReceiver(r *rng, n int, tier string, emit func(string)) {
 			for p := 0; p < r.intn(5)+1; p++ {
 				low := r.pick(0, 0, 5, 100, 1<<40)
 				high := low + r.pick(0, 1, 49999, 50000, 50001, 50002, 1000000, 7)
-				parts = append(parts, fmt.Sprintf("%d %d %d %s", p, low, high, b01(r.chance(8))))
+				parts = append(parts, fmt.Sprintf("%d %d %d %s %s", p, low, high, b01(r.chance(8)), b01(r.chance(15))))
 			}
 			emit(strings.Join(parts, " ; "))
 			continue
@@ -147,7 +165,7 @@ func genReceiver(r *rng, n int, tier string, emit func(string)) {
 				}
 			case x < 72:
 				if r.chance(40) {
-					ops = append(ops, fmt.Sprintf("bad 5 %s %s", t, k))
+					ops = append(ops, fmt.Sprintf("bad %d %s %s", r.pick(5, 6), t, k))
 				} else {
 					ops = append(ops, fmt.Sprintf("bad %d", r.intn(5)))
 				}
@@ -187,14 +205,19 @@ func execReceiver(input string) string {
 		var parts []kafka.PartitionMetadata
 		for _, seg := range segs[1:] {
 			f := strings.Fields(seg)
-			if len(f) != 4 {
+			if len(f) != 4 && len(f) != 5 {
 				continue
 			}
 			p, _ := strconv.ParseInt(f[0], 10, 32)
 			cl.low[int32(p)], _ = strconv.ParseInt(f[1], 10, 64)
 			cl.high[int32(p)], _ = strconv.ParseInt(f[2], 10, 64)
 			cl.wmErr[int32(p)] = f[3] == "1"
-			parts = append(parts, kafka.PartitionMetadata{ID: int32(p)})
+			pm := kafka.PartitionMetadata{ID: int32(p)}
+			if len(f) == 5 && f[4] == "1" {
+				// the metadata response carries a (transient) error for this partition: it is a partition of the topic all the same
+				pm.Error = kafka.NewError(kafka.ErrLeaderNotAvailable, "scripted", false)
+			}
+			parts = append(parts, pm)
 		}
 		r := message.VerifNewKafkaMessageReceiver(cl, topic, len(parts), nil)
 		return fmtTPs(r.VerifBuildPartitionAssignments(parts), false)
@@ -382,6 +405,15 @@ func execReceiver(input string) string {
 				v = []byte{}
 			case "3":
 				v = []byte(`[1,2]`)
+			case "6":
+				// a complete, valid wire document followed by junk: not a JSON document as a whole, so undecodable
+				ty, ky := "t", "k"
+				if len(f) >= 4 {
+					ty, ky = string(unhx(f[2])), string(unhx(f[3]))
+				}
+				tj, _ := json.Marshal(ty)
+				kj, _ := json.Marshal(ky)
+				v = []byte(fmt.Sprintf(`{"message":{"messagetype":%s,"key":%s,"payload":"AQ=="},"updated":"2023-11-14T22:13:20Z","ack":%v} trailing{`, tj, kj, len(ky)%2 == 0))
 			case "5":
 				// the wire layout of a real record, but with an 'updated' that is not a timestamp: undecodable as a whole
 				ty, ky := "t", "k"
